@@ -163,4 +163,17 @@ def Pipe.terminal (p : Pipe) : Bool := p.srcDone && p.stages.all (·.done)
 def expected (fns : List (Int → Int)) (items : List Int) : List Int :=
   items.map (fun v => fns.foldl (fun x f => f x) v)
 
+/-! ### `for v in c { ... }` on one channel -/
+
+/-- `for v in c { ... }` on one channel whose other users are quiet: each round receives ONE item and hands it to the body; `stop v` says that the
+body leaves the loop on item `v` (break, return, an error). Result: the channel afterwards and the items the body has seen. (runForChanStmt: one
+reflect.Select per round; the loop ends when the channel is closed and drained.) -/
+def rangeLoop (stop : Int → Bool) : Nat → Ch → List Int → Ch × List Int
+  | 0, c, seen => (c, seen)
+  | n + 1, c, seen =>
+    match c.step .recv with
+    | (c', .val v) => if stop v then (c', seen ++ [v]) else rangeLoop stop n c' (seen ++ [v])
+    | (c', _) => (c', seen)
+
+
 end Anko.Chan
